@@ -1,0 +1,51 @@
+//go:build verif
+
+package pongo2
+
+import "sort"
+
+// Hooks for the verification machinery in /verif (built only with -tags verif).
+// They expose unexported state read-only; they add no behaviour.
+
+// VerifToken is the exported view of one lexer token.
+type VerifToken struct {
+	Filename string
+	Typ      int
+	Val      string
+	Line     int
+	Col      int
+	Trim     bool
+}
+
+// VerifLex runs the lexer on src and returns the token list or the lexer error.
+func VerifLex(name, src string) ([]VerifToken, *Error) {
+	toks, err := lex(name, src)
+	if err != nil {
+		return nil, err
+	}
+	out := make([]VerifToken, len(toks))
+	for i, t := range toks {
+		out[i] = VerifToken{t.Filename, int(t.Typ), t.Val, t.Line, t.Col, t.TrimWhitespaces}
+	}
+	return out, nil
+}
+
+// VerifRegisteredTags lists the names in the tag registry, sorted.
+func VerifRegisteredTags() []string {
+	out := make([]string, 0, len(tags))
+	for k := range tags {
+		out = append(out, k)
+	}
+	sort.Strings(out)
+	return out
+}
+
+// VerifRegisteredFilters lists the names in the filter registry, sorted.
+func VerifRegisteredFilters() []string {
+	out := make([]string, 0, len(filters))
+	for k := range filters {
+		out = append(out, k)
+	}
+	sort.Strings(out)
+	return out
+}
